@@ -1582,11 +1582,27 @@ func c14FaultBurst(c *Ctx, up *world.Upstream) {
 					return nil, errors.New("read tcp 192.0.2.1:40000->192.0.2.2:443: read: connection reset by peer")
 				}}
 			}
-			for i := 0; i < 40; i++ {
-				b := newBrowser(px, "http", c14Host)
-				if resp, _, lerr := b.Login(idp, "alice", "/page"); lerr == nil && resp.Panic != nil {
-					c.Violate("C14/panic@"+resp.PanicSite(), fmt.Sprintf("%s: login %d of a burst of transport failures at %s panics: %v", name, i, ep, resp.Panic), 40, map[string]any{"kind": "fault-burst", "scenario": name, "endpoint": ep})
+			wedgedAt := -1
+			for i := 0; i < 40 && wedgedAt < 0; i++ {
+				fin := make(chan struct{})
+				go func() {
+					defer close(fin)
+					b := newBrowser(px, "http", c14Host)
+					if resp, _, lerr := b.Login(idp, "alice", "/page"); lerr == nil && resp.Panic != nil {
+						c.Violate("C14/panic@"+resp.PanicSite(), fmt.Sprintf("%s: login %d of a burst of transport failures at %s panics: %v", name, i, ep, resp.Panic), 40, map[string]any{"kind": "fault-burst", "scenario": name, "endpoint": ep})
+					}
+				}()
+				select {
+				case <-fin:
+				case <-time.After(10 * time.Second):
+					wedgedAt = i
 				}
+			}
+			if wedgedAt >= 0 {
+				c14Wedged.Store(true)
+				c.Violate("C14/"+sc.Flow+"/hangs-after-burst-of-transport-failures", fmt.Sprintf("%s: login %d of a burst of transport failures at %s does not come back within 10 s (the failures before it were answered at once)", name, wedgedAt, ep), 40,
+					map[string]any{"kind": "fault-burst", "scenario": name, "endpoint": ep, "transport_failures": hit})
+				return
 			}
 			idp.Intercept = nil
 			if hit == 0 {
